@@ -32,7 +32,7 @@ type c14Case struct {
 	Streams int    `json:"streams"`
 }
 
-var c14Classes = []string{"accepted", "oversized-body", "length-mismatch", "peer-reset-mid-body", "refused", "inflight-after-server-reset", "padding-only", "empty-data", "inflight-after-server-timeout"}
+var c14Classes = []string{"accepted", "oversized-body", "length-mismatch", "peer-reset-mid-body", "refused", "inflight-after-server-reset", "padding-only", "empty-data", "inflight-after-server-timeout", "one-long-upload", "one-long-upload-big-peer-window"}
 
 // sender is the conforming peer's send-side flow control.
 type sender struct {
@@ -126,6 +126,15 @@ func c14Exec(cs c14Case) (*fw.Violation, *harness.Server, int64) {
 	so := harness.ServerOpts{MaxConcurrentStreams: 4, MaxRequestBodySize: maxBody}
 	if cs.Class == "inflight-after-server-timeout" {
 		so.ReadTimeout = 1000000000
+	}
+	if strings.HasPrefix(cs.Class, "one-long-upload") {
+		// one stream carries more than the whole receive window the server advertises (4 MiB)
+		so.MaxRequestBodySize = 16 << 20
+		if cs.Class == "one-long-upload-big-peer-window" {
+			// the peer's own SETTINGS_INITIAL_WINDOW_SIZE is about the server's SEND windows: it must not influence
+			// when receive credit is handed back
+			so.PeerSettings = []peer.Setting{{ID: peer.SInitialWindowSize, Val: 32 << 20}}
+		}
 	}
 	h := harness.NewServer(so)
 	mk := func(rule, detail string) *fw.Violation {
@@ -273,6 +282,15 @@ func c14Exec(cs c14Case) (*fw.Violation, *harness.Server, int64) {
 				}
 			}
 			finishAll()
+		case "one-long-upload", "one-long-upload-big-peer-window":
+			sid := open()
+			const total = 9 << 20
+			for sentHere := 0; sentHere < total; sentHere += len(chunk) {
+				if r, d := s.send(sid, chunk, sentHere+len(chunk) >= total, cs.Pad); r != "" {
+					return mk(r, d), h, s.sent
+				}
+			}
+			finishAll()
 		case "padding-only":
 			sid := open()
 			// more padding on ONE stream than its window holds: it has to come back
@@ -335,6 +353,9 @@ func runC14(c *fw.Ctx) {
 					}
 					if pad >= 0 && ch+pad+1 > 16384 {
 						continue
+					}
+					if strings.HasPrefix(cl, "one-long-upload") && ch < 16384 {
+						continue // 9 MiB in small chunks is only volume
 					}
 					if item++; !c.Mine(item) {
 						continue
